@@ -114,6 +114,32 @@ T = {
             "two-cost overload with non-default eps / tol, or default arguments with a stiff cost"),
  "S3-C20": ("C20", "PPolyND::getTrajectoryLength(dt) caches its result per step size behind the derivative-table ready flag",
             "length query, update with other coefficients, an evaluate(), then the same length query again"),
+ "S4-C01": ("C01", "CubicSplineND::update(t_points, ...) forwards to the durations overload with the member boundary_velocities_ instead of its parameter",
+            "cubic spline updated through the time-point overload with boundary velocities that differ from the stored ones"),
+ "S4-C02": ("C02", "convertTimePointsToSegments (all three classes) rewritten with std::adjacent_difference over [t1, end): the first duration becomes t1",
+            "a spline built or updated from absolute knot times whose first knot is not 0"),
+ "S4-C03": ("C03", "PPolyND::buildDynamicDerivativeFactorTable: rows beyond the static table extended by f(n,k) = n f(n-1,k-1) with k < n instead of k <= n",
+            "more than 8 coefficients per piece and a derivative order >= 8 (the diagonal n! is left 0)"),
+ "S4-C04": ("C04", "CubicSplineND::getEnergy sums the segments pairwise; the recursive split is [first, mid) + [mid + 1, last)",
+            "cubic spline with more than 32 segments"),
+ "S4-C05": ("C05", "CubicSplineND::propagateGradInternal: the scatter of the system-row term written as an if / else-if chain on k == 0 / k == n-1",
+            "cubic spline with exactly one segment (first and last at once): end.p loses a term"),
+ "S4-C07": ("C07", "SepticSplineND::propagateGradInternal (DIM > 3 arm): waypoint differences hoisted into locals, one right-hand-side row gets the wrong sign",
+            "optimizer over a septic spline with DIM > 3, N >= 2 and a non-zero running cost"),
+ "S4-C08": ("C08", "evaluate(): the waypoint-cost block wrapped in if (!spatial_layout_.empty())",
+            "one segment, start_p and end_p both false, a non-void waypoint cost"),
+ "S4-C09": ("C09", "generateInitialGuess writes the boundary-derivative blocks grouped by order (start_v, end_v, start_a, ...) instead of start-then-end",
+            "order >= 5 with a start flag of order >= 2 together with an end flag of lower order"),
+ "S4-C11": ("C11", "PPolyND::initializeInternal: helper extraction; the reject path no longer drops the derivative tables and the accept path drops them only if is_initialized_",
+            "valid update, an evaluation, a rejected update, a valid update, an evaluation"),
+ "S4-C13": ("C13", "CubicSplineND::update(durations, ...) returns early when the problem matches the stored one, waypoints and velocities compared with isApprox()",
+            "second update on an initialised object, identical durations, a coordinate changed by less than 1e-12 of the norm of the whole waypoint matrix"),
+ "S4-C14": ("C14", "CubicSplineND::getEnergyGradInnerPoints rewritten over a strided Eigen::Map of the coefficient storage",
+            "cubic, DIM == 1 (column-major storage), N >= 2: the view reaches c_0 rows"),
+ "S4-C16": ("C16", "PPolyND::initializeInternal: reject blocks merged into a helper; the first guard became breakpoints.empty()",
+            "exactly one breakpoint and a coefficient matrix with zero rows (zero() / constant() with one breakpoint)"),
+ "S4-C20": ("C20", "getTrajectoryLength: speed taken from a helper that returns velocity(0) for DIM == 1",
+            "one-dimensional trajectory with negative velocity at some left sample"),
 }
 EXTRA = os.path.join(V, "seeded", "extra_meta.json")
 if os.path.exists(EXTRA):
